@@ -14,7 +14,7 @@
 IMG_SERVER(s)
 IMG_CLIENT(ca)
 
-enum { K_CASES, K_DEP, K_RAW };
+enum { K_CASES, K_DEP, K_RAW, K_SAN, K_ENV };
 static int thorough;
 
 static void viol(const char *what, const char *fmt, ...)
@@ -26,7 +26,7 @@ static void viol(const char *what, const char *fmt, ...)
 }
 
 /* Sanitizer reports are not this property's oracle (C05/C06 own them); they are counted as a note. */
-static void on_san(const char *sig) { (void)sig; xp_count(3, 1); }
+static void on_san(const char *sig) { if (getenv("VERIF_VERBOSE")) dprintf(2, "sanitizer note: %s\n", sig); xp_count(3, 1); }
 
 static uint32_t CH[128]; static int nch;
 static void mk_challenges(void)
@@ -228,13 +228,110 @@ static void job_raw_client(void)
 	xp_sample("real client handshake (-T NULL, raw mode) against a scripted server for challenges 0,1,ffffffff,7ffffffe,80000000,80000001,12345678,7fffffff");
 }
 
+
+/* the same handshake under every environment answer sequence: each wait for the DNS login answer and each wait
+ * for the raw login answer gets one of a small menu of non-answers (silence, a late duplicate of an earlier
+ * DNS answer, a raw frame with a wrong digest, a runt raw frame, a raw ping frame); every (re)transmitted login,
+ * DNS or raw, must still carry the documented digest, and a correct answer afterwards must still be accepted. */
+enum { EV_SILENCE, EV_DUP_DNS, EV_RAW_WRONG, EV_RAW_RUNT, EV_RAW_PING, EV_N };
+static void run_env(uint32_t seed, const int *lenv, int nl, const int *renv, int nr, int tag)
+{
+	vw_init();
+	W.hooks.on_sanitizer = on_san;
+	cadv_password = PW;
+	cadv_boot("NULL", "", 1, 1);
+	int il = 0, ir = 0, nlogin = 0, nraw = 0, accepted = 0;
+	uint8_t lastans[700]; int lastlen = 0;
+	for (int round = 0; round < 200 && vw_alive(1); round++) {
+		if (cadv_nout == 0) { int64_t t = vw_next_time(); if (t == VW_NEVER) break; vw_run_until(t); vw_run_quiescent(0); continue; }
+		cadv_out o = cadv_outs[0];
+		memmove(cadv_outs, cadv_outs + 1, sizeof(cadv_out) * (cadv_nout - 1)); cadv_nout--;
+		if (o.kind != 0) continue;
+		if (o.len >= 4 && o.data[0] == 0x10 && o.data[1] == 0xd1 && o.data[2] == 0x9e) {
+			if ((o.data[3] & 0xf0) != 0x10) { accepted = 1; break; }     /* raw ping/data: the client is in raw mode */
+			unsigned char want[16]; ref_login(pw32, seed + 1, want);
+			xp_count(K_RAW, 1); nraw++;
+			if (o.len != 20) viol("client-raw-login-malformed", "len %d", o.len);
+			else if (memcmp(o.data + 4, want, 16)) viol("client-raw-login-not-challenge-plus-one", "raw login #%d is not the documented response for challenge+1 (challenge 0x%08x) after environment answers", nraw, seed);
+			int ev = ir < nr ? renv[ir] : -1; ir++;
+			unsigned char f[40] = { 0x10, 0xd1, 0x9e, 0x10 };
+			if (ev == -1) { ref_login(pw32, seed - 1, f + 4); cadv_reply(f, 20); }
+			else if (ev == EV_DUP_DNS && lastlen) cadv_reply(lastans, lastlen);
+			else if (ev == EV_RAW_WRONG) { ref_login(pw32, seed, f + 4); cadv_reply(f, 20); }
+			else if (ev == EV_RAW_RUNT) cadv_reply(f, 10);
+			else if (ev == EV_RAW_PING) { f[3] = 0x30; memset(f + 4, 0x55, 30); cadv_reply(f, 34); }
+			continue;
+		}
+		rd_msg m; char err[128];
+		if (rd_parse(o.data, o.len, &m, err)) continue;
+		char c = m.qname[1];
+		uint8_t ans[700]; int al = -1;
+		if (c == 'v') { unsigned char r[9] = { 'V', 'A', 'C', 'K', seed >> 24, seed >> 16, seed >> 8, seed, 3 }; al = rd_mkanswer(ans, sizeof ans, o.data, o.len, r, 9, 0); }
+		else if (c == 'l') {
+			char lab[300]; int ll = 0, p = 0;
+			while (m.qname[p] && ll < 250) { int l = m.qname[p]; memcpy(lab + ll, m.qname + p + 1, l); ll += l; p += 1 + l; if (ll > 40) break; }
+			unsigned char dec[64]; size_t dl = sizeof dec;
+			int n = s_base32_ops.decode(dec, &dl, lab + 1, 31);
+			unsigned char want[16]; ref_login(pw32, seed, want);
+			xp_count(K_RAW, 1); nlogin++;
+			if (n < 17 || dec[0] != 3) viol("client-login-malformed", "decoded %d bytes userid %d", n, dec[0]);
+			else if (memcmp(dec + 1, want, 16)) viol("client-login-not-documented-formula", "login #%d: bytes 1..16 differ from the documented response (challenge 0x%08x)", nlogin, seed);
+			int ev = il < nl ? lenv[il] : -1; il++;
+			if (ev == -1) { const char *rep = "10.0.0.1-10.0.0.4-1130-29"; al = rd_mkanswer(ans, sizeof ans, o.data, o.len, (const uint8_t *)rep, strlen(rep), 0); }
+			else if (ev == EV_DUP_DNS && lastlen) { cadv_reply(lastans, lastlen); continue; }
+			else continue;
+		} else if (c == 'i') { unsigned char r[5] = { 'I', 192, 0, 2, 1 }; al = rd_mkanswer(ans, sizeof ans, o.data, o.len, r, 5, 0); }
+		else continue;
+		if (al > 0) { memcpy(lastans, ans, al); lastlen = al; cadv_reply(ans, al); }
+	}
+	if (nlogin != nl + 1) viol("client-login-retransmissions-unexpected", "expected %d DNS logins, saw %d", nl + 1, nlogin);
+	if (nraw != (nr < 4 ? nr + 1 : 4)) viol("client-raw-login-retransmissions-unexpected", "expected %d raw logins, saw %d", nr < 4 ? nr + 1 : 4, nraw);
+	if (nr < 4 && !accepted) viol("correct-raw-reply-not-accepted", "after %d environment answers the documented challenge-1 reply did not switch the client to raw mode (challenge 0x%08x)", nr, seed);
+	if (nr >= 4 && accepted) viol("raw-mode-without-valid-reply", "client went to raw mode without the documented reply");
+	xp_outcome(0x9000 + tag * 8 + nraw * 2 + accepted);
+}
+
+static void job_raw_client_env(void)
+{
+	uint32_t seeds[] = { 0xffffffffu, 0x12345678u, 0, 0x80000000u, 0x7fffffffu, 1 };
+	int ns = thorough ? 6 : 2;
+	long runs = 0;
+	for (int k = 0; k < ns; k++) {
+		/* raw phase: every sequence of 0..4 non-answers */
+		int total = 1; 
+		for (int n = 0; n <= 4; n++, total *= EV_N)
+			for (int code = 0; code < total; code++) {
+				int env[4], c = code;
+				for (int i = 0; i < n; i++) { env[i] = c % EV_N; c /= EV_N; }
+				runs++;
+				if (xp_fork_wait() != 0) continue;
+				run_env(seeds[k], NULL, 0, env, n, 1);
+				xp_child_exit();
+			}
+		/* DNS login phase: every sequence of 0..3 of {silence, duplicate} before the answer, each followed by raw phase with 0 or 1 duplicate */
+		for (int n = 0; n <= 3; n++)
+			for (int code = 0; code < (1 << n); code++)
+				for (int rr = 0; rr < 2; rr++) {
+					int env[3], renv[1] = { EV_DUP_DNS };
+					for (int i = 0; i < n; i++) env[i] = (code >> i) & 1 ? EV_DUP_DNS : EV_SILENCE;
+					runs++;
+					if (xp_fork_wait() != 0) continue;
+					run_env(seeds[k], env, n, renv, rr, 2);
+					xp_child_exit();
+				}
+	}
+	xp_count(K_ENV, runs);
+	xp_sample("real client handshake under every sequence of 0..4 non-answers {silence, late duplicate DNS answer, raw frame with wrong digest, runt raw frame, raw ping} at the raw-login waits and 0..3 {silence, duplicate} at the DNS-login waits, %d challenges: %ld handshakes", ns, runs);
+}
+
 static void job(int j)
 {
 	W.hooks.on_sanitizer = on_san;
 	if (j < 4) job_pure(j);
 	else if (j == 4) job_dep();
 	else if (j == 5) job_raw_server();
-	else job_raw_client();
+	else if (j == 6) job_raw_client();
+	else job_raw_client_env();
 }
 
 int main(int argc, char **argv)
@@ -247,9 +344,9 @@ int main(int argc, char **argv)
 	xp_init("C19", a.tier, 1024, a.budget_s);
 	if (a.replay) { job(xp_load_replay(a.replay)); return 0; }
 	hc_quiet();
-	xp_run_jobs(7, job, a.workers);
-	char extra[200];
-	snprintf(extra, sizeof extra, "\"cases\":%ld,\"dependence_checks\":%ld,\"raw_checks\":%ld,\"challenges\":%d,\"sanitizer_notes_for_C05_C06\":%ld", XS->counters[K_CASES], XS->counters[K_DEP], XS->counters[K_RAW], nch, XS->counters[3]);
+	xp_run_jobs(8, job, a.workers);
+	char extra[300];
+	snprintf(extra, sizeof extra, "\"cases\":%ld,\"dependence_checks\":%ld,\"raw_checks\":%ld,\"challenges\":%d,\"sanitizer_notes_for_C05_C06\":%ld,\"env_handshakes\":%ld", XS->counters[K_CASES], XS->counters[K_DEP], XS->counters[K_RAW], nch, XS->counters[3], XS->counters[K_ENV]);
 	xp_print_stats(extra);
 	return 0;
 }
